@@ -19,6 +19,7 @@ structure Pristine (ci : CfgInput) (s : St) : Prop where
   calls : s.calls = []
   waiters : s.waiters = []
   published : s.published = []
+  held : s.held = []
 
 def notCcs : Op → Prop
   | .ccs _ => False
@@ -28,7 +29,7 @@ theorem wake_no_waiters {s : St} (h : s.waiters = []) : wakeWaiters s = (s, []) 
   unfold wakeWaiters; rw [h]; rfl
 
 theorem pristine_init (ci : CfgInput) : Pristine ci (init ci) :=
-  ⟨rfl, rfl, rfl, rfl, rfl, rfl, rfl, rfl, rfl⟩
+  ⟨rfl, rfl, rfl, rfl, rfl, rfl, rfl, rfl, rfl, rfl⟩
 
 theorem pristine_stepCore {ci : CfgInput} {s : St} (h : Pristine ci s) (op : Op) (hop : notCcs op) :
     Pristine ci (stepCore s op).1 := by
@@ -40,12 +41,13 @@ theorem pristine_stepCore {ci : CfgInput} {s : St} (h : Pristine ci s) (op : Op)
     have hs : stateOf s sc = none := by unfold stateOf; rw [h.scStates]; rfl
     simp only [stepCore, opScs, scsPrologue, hl, hs]
     exact h
-  | factory n => exact ⟨h.cin, h.cfg, h.scRefs, h.scStates, h.refs, h.rmap, h.calls, h.waiters, h.published⟩
-  | adv ns => exact ⟨h.cin, h.cfg, h.scRefs, h.scStates, h.refs, h.rmap, h.calls, h.waiters, h.published⟩
+  | factory n => exact ⟨h.cin, h.cfg, h.scRefs, h.scStates, h.refs, h.rmap, h.calls, h.waiters, h.published, h.held⟩
+  | adv ns => exact ⟨h.cin, h.cfg, h.scRefs, h.scStates, h.refs, h.rmap, h.calls, h.waiters, h.published, h.held⟩
   | pick call pn m ctx dl req =>
-    have hu : callIdUsed s call = false := by unfold callIdUsed; rw [h.calls, h.waiters]; rfl
+    have hu : callIdUsed s call = false := by unfold callIdUsed; rw [h.calls, h.waiters, h.held]; rfl
+    have hb : pickerBusy s pn = false := by unfold pickerBusy; rw [h.held]; rfl
     have hp : s.published[pn]? = none := by rw [h.published]; rfl
-    simp only [stepCore, opPick, hu, hp]
+    simp only [stepCore, opPick, hu, hb, hp]
     exact h
   | ctxdone call =>
     have hf : s.waiters.find? (fun w => w.id == call) = none := by rw [h.waiters]; rfl
@@ -54,6 +56,17 @@ theorem pristine_stepCore {ci : CfgInput} {s : St} (h : Pristine ci s) (op : Op)
   | done call err reply =>
     have hf : s.calls.find? (fun c => c.id == call) = none := by rw [h.calls]; rfl
     simp only [stepCore, opDone, hf]
+    exact h
+  | pickHold call pn m ctx dl req =>
+    have hu : callIdUsed s call = false := by unfold callIdUsed; rw [h.calls, h.waiters, h.held]; rfl
+    have hb : pickerBusy s pn = false := by unfold pickerBusy; rw [h.held]; rfl
+    have hp : s.published[pn]? = none := by rw [h.published]; rfl
+    have hw : wouldGrow s pn m ctx req = false := by unfold wouldGrow; rw [hp]
+    simp only [stepCore, opPickHold, opPick, hu, hb, hp, hw]
+    exact h
+  | resume call =>
+    have hf : s.held.find? (fun x => x.1 == call) = none := by rw [h.held]; rfl
+    simp only [stepCore, opResume, hf]
     exact h
 
 theorem pristine_step {ci : CfgInput} {s : St} (h : Pristine ci s) (op : Op) (hop : notCcs op) :
